@@ -137,9 +137,13 @@ public:
    ///    The name of the attribute.
    /// @param[in]  value
    ///    The value for the attribute.
+   /// @return
+   ///    The unique id of the new attribute, can be passed to
+   ///    removeAttributeById() to remove exactly this attribute again.
    /// @since
    ///    1.15.0, 10.10.2018
-   void addAttribute( const std::string& name, const std::string& value);
+   detail::LogAttributesContainer::attr_id_t
+      addAttribute( const std::string& name, const std::string& value);
 
    /// Returns the value for an attribute.
    /// If multiple attributes with the same name exist, the values of the last
@@ -159,6 +163,13 @@ public:
    /// @param[in]  attr_name  The name of the attribute to remove.
    /// @since  1.15.0, 11.10.2018
    void removeAttribute( const std::string& attr_name);
+
+   /// Removes exactly the attribute with the given id, even if other
+   /// attributes with the same name were added afterwards.
+   ///
+   /// @param[in]  attr_id
+   ///    The id of the attribute as returned by addAttribute().
+   void removeAttributeById( detail::LogAttributesContainer::attr_id_t attr_id);
 
    /// Dumps information about the logging framework.
    ///
